@@ -7,6 +7,12 @@ Import ListNotations.
 
 Definition postpop (pc : wkpc) : bool :=
   match pc with WKbConn | WKbReq | WKbConn2 | WKbSc _ => true | _ => false end.
+Definition is_c2 (pc : wkpc) : bool := match pc with WKbConn2 => true | _ => false end.
+Definition is_sc (pc : wkpc) : bool := match pc with WKbSc _ => true | _ => false end.
+Definition is_atacq (pc : iopc) : bool := match pc with IoRcAt AtAcq => true | _ => false end.
+
+(* what L1 sees of a worker's program point *)
+Definition wa1 (pc : wkpc) : bool * bool * bool * bool := (wk_owner pc, postpop pc, is_c2 pc, is_sc pc).
 
 Record L1 (st : state) : Prop := {
   l1_uniq : forall j k, wk_owner (wpc (wk st j)) = true -> wk_owner (wpc (wk st k)) = true -> j = k;
@@ -16,9 +22,9 @@ Record L1 (st : state) : Prop := {
   l1_ownreq : forall j, wk_owner (wpc (wk st j)) = true -> postpop (wpc (wk st j)) = false -> requests (sh st) <> [];
   l1_cover : connected (sh st) = true -> (forall j, wk_owner (wpc (wk st j)) = false) -> requests (sh st) <> [] ->
              (io_handing (io st) = true -> 2 <= length (requests (sh st))) -> queue (sh st) = 1;
-  l1_c2 : forall j, wpc (wk st j) = WKbConn2 -> requests (sh st) <> [] -> connected (sh st) = false;
-  l1_sc : forall j c, wpc (wk st j) = WKbSc c -> requests (sh st) = [];
-  l1_at : ipc (io st) = IoRcAt AtAcq -> length (requests (sh st)) = 1;
+  l1_c2 : forall j, is_c2 (wpc (wk st j)) = true -> requests (sh st) <> [] -> connected (sh st) = false;
+  l1_sc : forall j, is_sc (wpc (wk st j)) = true -> requests (sh st) = [];
+  l1_at : is_atacq (ipc (io st)) = true -> length (requests (sh st)) = 1;
   l1_hand : io_handing (io st) = true -> length (requests (sh st)) = 1 ->
             queue (sh st) = 0 /\ forall j, wk_owner (wpc (wk st j)) = false
 }.
@@ -30,20 +36,52 @@ Qed.
 
 Lemma app_one_nonnil : forall (A : Type) (l : list A) x, l ++ [x] <> [].
 Proof. intros A l x H. apply app_eq_nil in H. destruct H. discriminate. Qed.
-
 Lemma len_app_one : forall (A : Type) (l : list A) x, length (l ++ [x]) = S (length l).
 Proof. intros. rewrite app_length. simpl. lia. Qed.
-
 Lemma len1_app_one : forall (A : Type) (l : list A) x, length (l ++ [x]) = 1 -> l = [].
 Proof. intros A l x H. rewrite len_app_one in H. destruct l; simpl in *; auto. lia. Qed.
 
-Lemma nonnil_len : forall (A : Type) (l : list A), l <> [] -> 1 <= length l.
-Proof. destruct l; simpl; intros; try congruence; lia. Qed.
+Lemma postpop_rl : forall pc, postpop pc = true -> wk_rl pc = true.
+Proof. destruct pc; simpl; congruence. Qed.
+
+(* while the I/O thread is inside received() and the request list is empty, nothing
+   is queued and no worker owns the connection *)
+Lemma io_rl_empty_no_owner : forall st, L0 st -> L1 st ->
+  io_rl (ipc (io st)) = true -> requests (sh st) = [] ->
+  queue (sh st) = 0 /\ forall j, wk_owner (wpc (wk st j)) = false.
+Proof.
+  intros st HL0 HL1 Hio Hreq. split.
+  - pose proof (l1_q _ HL1). pose proof (l1_qreq _ HL1).
+    destruct (queue (sh st)) as [|[|q]]; auto; try lia. exfalso. apply H0; auto.
+  - intro j. destruct (wk_owner (wpc (wk st j))) eqn:Eo; auto.
+    destruct (postpop (wpc (wk st j))) eqn:Ep.
+    + apply postpop_rl in Ep. pose proof (lock_ok_io_excl _ _ _ _ (l0_r _ HL0) Hio j). congruence.
+    + exfalso. eapply (l1_ownreq _ HL1); eauto.
+Qed.
+
+(* ---- frame: a step that changes nothing L1 looks at *)
+Lemma L1_frame : forall st st',
+  requests (sh st') = requests (sh st) -> queue (sh st') = queue (sh st) ->
+  connected (sh st') = connected (sh st) ->
+  io_handing (io st') = io_handing (io st) -> is_atacq (ipc (io st')) = is_atacq (ipc (io st)) ->
+  (forall j, wa1 (wpc (wk st' j)) = wa1 (wpc (wk st j))) ->
+  L1 st -> L1 st'.
+Proof.
+  intros st st' Hr Hq Hc Hh Ha Hw [Hu Hq1 Hqo Hqr Hor Hcv Hc2 Hsc Hat Hhd].
+  assert (Ho : forall j, wk_owner (wpc (wk st' j)) = wk_owner (wpc (wk st j))) by (intro j; specialize (Hw j); unfold wa1 in Hw; congruence).
+  assert (Hp : forall j, postpop (wpc (wk st' j)) = postpop (wpc (wk st j))) by (intro j; specialize (Hw j); unfold wa1 in Hw; congruence).
+  assert (H2 : forall j, is_c2 (wpc (wk st' j)) = is_c2 (wpc (wk st j))) by (intro j; specialize (Hw j); unfold wa1 in Hw; congruence).
+  assert (H3 : forall j, is_sc (wpc (wk st' j)) = is_sc (wpc (wk st j))) by (intro j; specialize (Hw j); unfold wa1 in Hw; congruence).
+  split; rewrite ?Hr, ?Hq, ?Hc, ?Hh, ?Ha; intros;
+    repeat match goal with H : context [wk st' _] |- _ => rewrite ?Ho, ?Hp, ?H2, ?H3 in H end;
+    rewrite ?Ho, ?Hp, ?H2, ?H3; eauto.
+  all: try (apply Hcv; auto; intro j; rewrite <- Ho; auto).
+  all: try (destruct (Hhd H H0) as [A B]; split; auto; intro j; rewrite Ho; auto).
+Qed.
 
 Section Step.
 Variable P : params.
 
-(* the lock facts of L0, as plain hypotheses about the stepping thread *)
 Ltac l0_facts HL0 :=
   destruct HL0 as [[R1 R2] [O1 O2] [D1 D2]]; cbn [sh io wk] in *.
 
@@ -56,19 +94,81 @@ Ltac list_simp :=
   | |- context [length (_ ++ [_])] => rewrite len_app_one
   end.
 
+Definition lockmark (j : nat) := True.
+
+Ltac inst_locks :=
+  repeat match goal with
+  | H : context [wpc (?w ?j)] |- _ =>
+      is_var j;
+      lazymatch goal with
+      | _ : lockmark j |- _ => fail
+      | R2 : forall j : nat, rlock _ = Some (TW j) <-> _, O2 : forall j : nat, olock _ = Some (TW j) <-> _,
+        D2 : forall j : nat, dlock _ = Some (TW j) <-> _ |- _ =>
+          pose proof (R2 j); pose proof (O2 j); pose proof (D2 j); assert (lockmark j) by exact I
+      end
+  end.
+
+Ltac rew_pcs :=
+  repeat match goal with
+  | H : wpc (?w ?j) = _ |- _ => rewrite H in *
+  | E : requests _ = _ :: _ |- _ => rewrite E in *
+  | E : requests _ = [] |- _ => rewrite E in *
+  | E : queue _ = _ |- _ => rewrite E in *
+  | E : connected _ = _ |- _ => rewrite E in *
+  end.
+
+Ltac slv := solve [ intuition (eauto; try discriminate; try congruence; try lia) ].
+
 Ltac fin :=
   bool_hyps; cbn in *; list_simp;
-  try solve [ intuition (try discriminate; try congruence; try lia) ].
+  try solve [ eauto ];
+  try slv;
+  inst_locks; rew_pcs; cbn in *;
+  try slv;
+  try (match goal with
+       | s : shared |- _ => destruct (requests s) eqn:?; cbn in *; list_simp; slv
+       end).
+
+Lemma upd_forall_elim : forall (Q : wkst -> Prop) w me x,
+  (forall j, Q (upd w me x j)) -> Q x /\ forall j, j <> me -> Q (w j).
+Proof.
+  intros Q w me x H. split.
+  - specialize (H me). rewrite upd_same in H. exact H.
+  - intros j Hj. specialize (H j). rewrite upd_other in H; auto.
+Qed.
+
+Ltac upd_hyps :=
+  repeat match goal with
+  | H : forall j : nat, _ (wpc (upd _ _ _ j)) = _ |- _ =>
+      apply (upd_forall_elim (fun y => wk_owner (wpc y) = false)) in H; destruct H
+  end.
+
+Ltac upd_goal me :=
+  unfold upd in *;
+  repeat match goal with
+  | |- context [Nat.eqb ?j me] => destruct (Nat.eqb_spec j me); [subst j|]
+  | H : context [Nat.eqb ?j me] |- _ => destruct (Nat.eqb_spec j me); [subst j|]
+  end.
+
+(* try the frame lemma: all side conditions by computation *)
+Ltac frame_io HL1 :=
+  apply (L1_frame _ _) with (7 := HL1); cbn; try reflexivity; intro; reflexivity.
+Ltac frame_wk HL1 me Hw :=
+  apply (L1_frame _ _) with (7 := HL1); cbn; try reflexivity;
+  let j := fresh "j" in intro j; unfold upd; destruct (Nat.eqb_spec j me); [subst j; rewrite Hw|]; reflexivity.
 
 Theorem L1_step : forall st c st' l, L0 st -> L1 st -> step P st c = Some (st', l) -> L1 st'.
 Proof.
-  intros st c st' l HL0 [Hu Hq Hqo Hqr Hor Hcv Hc2 Hsc Hat Hh] Hs.
+  intros st c st' l HL0 HL1 Hs.
+  pose proof (io_rl_empty_no_owner st HL0 HL1) as Hemp.
   destruct c as [e | me e].
-  - step_io Hs; l0_facts HL0; cbn [sh io wk ipc] in *.
-    all: split; cbn [sh io wk ipc io_handing]; intros.
-    all: fin.
+  - step_io Hs; cbn [sh io wk ipc] in *.
+    all: try (frame_io HL1).
     all: match goal with |- ?G => idtac "IOGOAL" G end.
     all: admit.
-  - admit.
+  - step_wk Hs; cbn [sh io wk ipc] in *.
+    all: try (frame_wk HL1 me Hw).
+    all: match goal with |- ?G => idtac "WKGOAL" G end.
+    all: admit.
 Admitted.
 End Step.
